@@ -43,6 +43,7 @@ def consumers():
     import torch
     from kaira.models.binary import soft_bit_thresholding as T
     from kaira.models.fec.utils import llr_to_bits, sign_to_bin
+    from kaira.models.registry import ModelRegistry
     LLR = T.InputType.LLR
     return [
         ("llr", lambda: T.LLRThresholder(), "cons llr 1 0", {}),
@@ -55,6 +56,19 @@ def consumers():
         ("adaptive", lambda: T.AdaptiveThresholder(method="mean", input_type=LLR), None, {"mixed": True}),
         ("hysteresis", lambda: T.HysteresisThresholder(input_type=LLR), None, {"minmag": 1.0}),
         ("dynamic", lambda: T.DynamicThresholder(input_type=LLR), None, {"mixed": True}),
+        # custom reference points in every order (bit-0 reference first, descending multi-level, unsorted)
+        ("mindist_pm", lambda: T.MinDistanceThresholder(reference_points=torch.tensor([3.0, -3.0]), input_type=LLR), "cons mindist 3,-3", {}),
+        ("mindist_desc", lambda: T.MinDistanceThresholder(reference_points=torch.tensor([6.0, 2.0, -2.0, -6.0]), input_type=LLR), "cons mindist 6,2,-2,-6", {}),
+        ("mindist_mixed", lambda: T.MinDistanceThresholder(reference_points=torch.tensor([-1.0, 5.0, 1.0, -5.0]), input_type=LLR), "cons mindist -1,5,1,-5", {}),
+        # the input type given as the documented plain string, directly and through the model registry
+        ("mindist_str", lambda: T.MinDistanceThresholder(input_type="llr"), "cons mindist -2,2", {}),
+        ("weighted_str", lambda: T.WeightedThresholder(weights=1.0, threshold=0.5, input_type="llr"), "cons half", {}),
+        ("adaptive_str", lambda: T.AdaptiveThresholder(method="mean", input_type="llr"), None, {"mixed": True}),
+        ("hysteresis_str", lambda: T.HysteresisThresholder(input_type="llr"), None, {"minmag": 1.0}),
+        ("dynamic_str", lambda: T.DynamicThresholder(input_type="llr"), None, {"mixed": True}),
+        ("hysteresis_registry", lambda: ModelRegistry.create("hysteresis_thresholder", input_type="llr"), None, {"minmag": 1.0}),
+        ("weighted_registry", lambda: ModelRegistry.create("weighted_thresholder", weights=1.0, threshold=0.5, input_type="llr"), "cons half", {}),
+        ("adaptive_registry", lambda: ModelRegistry.create("adaptive_thresholder", method="mean", input_type="llr"), None, {"mixed": True}),
         ("ensemble", lambda: T.SoftBitEnsembleThresholder([T.LLRThresholder(), T.WeightedThresholder(weights=1.0, threshold=0.5, input_type=LLR), T.MinDistanceThresholder(input_type=LLR)]), None, {}),
     ]
 
